@@ -1,6 +1,7 @@
 package main
 
 import (
+	"sort"
 	"encoding/json"
 	"fmt"
 	"strings"
@@ -267,7 +268,12 @@ func runFlatten(fn string, tr T) (res interface{}, viol string) {
 // c16Spice adds duplicates / variants / nil entries to the addressing lists of a generated value.
 func c16Spice(r *RNG, tr T) {
 	f := tr["f"].(T)
+	names := make([]string, 0, len(c16Lists))
 	for name := range c16Lists {
+		names = append(names, name)
+	}
+	sort.Strings(names) // map order must not steer the random stream
+	for _, name := range names {
 		lv, ok := f[name].(T)
 		if !ok {
 			continue
@@ -276,7 +282,7 @@ func c16Spice(r *RNG, tr T) {
 		if len(l) == 0 {
 			continue
 		}
-		switch r.Intn(5) {
+		switch r.Intn(6) {
 		case 0:
 			l = append(l, l[r.Intn(len(l))])
 		case 1:
@@ -285,8 +291,45 @@ func c16Spice(r *RNG, tr T) {
 			}
 		case 2:
 			l = append([]interface{}{nil}, l...)
+		case 3:
+			// the same addressee in another addressing list as well (as its IRI or in the same form)
+			other := names[r.Intn(len(names))]
+			if ov, ok := f[other].(T); ok && other != name {
+				m := l[r.Intn(len(l))]
+				if id := treeID(m); id != "" && r.Bool() {
+					m = T{"iri": id}
+				}
+				ov["list"] = append(asList(ov["list"]), cloneTree(m))
+			}
 		}
 		lv["list"] = l
+	}
+	// a single-item position holding a list whose entries all carry the same id (an embedded object next to
+	// its IRI, the same object by pointer and by value): de-duplication leaves one entry
+	singles := make([]string, 0, len(c16Single))
+	for name := range c16Single {
+		singles = append(singles, name)
+	}
+	sort.Strings(singles)
+	for _, name := range singles {
+		v, ok := f[name].(T)
+		if !ok || r.Intn(8) != 0 {
+			continue
+		}
+		id := treeID(v)
+		if id == "" || v["t"] == nil {
+			continue
+		}
+		twin := cloneTree(v).(T)
+		twin["ptr"] = !(v["ptr"] == true)
+		l := []interface{}{v, T{"iri": id}}
+		if r.Bool() {
+			l = []interface{}{v, twin}
+		}
+		if r.Bool() {
+			l = append(l, T{"iri": id})
+		}
+		f[name] = T{"items": l, "ptr": r.Bool()}
 	}
 }
 
@@ -306,7 +349,7 @@ func c16Case(c *Ctx, fn string, tr T) {
 
 func init() {
 	campaigns["C16"] = func(c *Ctx) {
-		c.Rule = "activities / intransitive activities / questions / objects / actors (and the other object types through FlattenProperties) generated type-directed with the flattened positions set with probability 0.6: IRIs, embedded objects of every type with and without id, by pointer and by value, links, item lists; addressing lists spiced with duplicates, scheme variants of an id and nil entries; plus unrelated properties to judge the frame. Each value goes through its Flatten<T>Properties function and through FlattenProperties; also Flatten/FlattenToIRI/FlattenItemCollection on single items and lists. Oracle: positions, no-new-IRI, frame, nobody-lost, idempotence. Cases where the model declares the input outside its domain (collection objects in flattened single positions) are compared by the oracle only."
+		c.Rule = "activities / intransitive activities / questions / objects / actors (and the other object types through FlattenProperties) generated type-directed with the flattened positions set with probability 0.6: IRIs, embedded objects of every type with and without id, by pointer and by value, links, item lists; addressing lists spiced with duplicates, scheme variants of an id, nil entries and addressees shared between two lists; single positions holding lists whose entries all carry one id (object next to its IRI, pointer and value form); plus unrelated properties to judge the frame. Each value goes through its Flatten<T>Properties function and through FlattenProperties; also Flatten/FlattenToIRI/FlattenItemCollection on single items and lists. Oracle: positions, no-new-IRI, frame, nobody-lost, idempotence. Cases where the model declares the input outside its domain (collection objects in flattened single positions) are compared by the oracle only."
 		force := map[string]bool{}
 		for k := range c16Single {
 			force[k] = true
